@@ -33,6 +33,17 @@ func main() {
 		getdata(os.Args[2:])
 	case "sync":
 		syncEngine(os.Args[2:])
+	case "streams":
+		simple(os.Args[2:], func(w *env.World, out *bufio.Writer) func([]byte) error {
+			r := &drive.StreamRunner{W: w, Out: out}
+			return func(line []byte) error {
+				var sc drive.StreamScript
+				if err := json.Unmarshal(line, &sc); err != nil {
+					return err
+				}
+				return r.Run(&sc)
+			}
+		})
 	case "netconf":
 		simple(os.Args[2:], func(w *env.World, out *bufio.Writer) func([]byte) error {
 			r := &drive.NCRunner{W: w, Out: out}
